@@ -85,7 +85,7 @@ class Ref:
         elif typ in ('hash', 'harr'):
             self.d = {}
             self.range = args[0] if typ == 'hash' and args[0] else 1000
-            self.order = []                        # harr: unspecified order
+            self.chains = {}                       # hash: slot -> keys, head first
         elif typ == 'ltbl':
             self.l = []                            # [(name, value)]
             o = args[0]
@@ -124,6 +124,148 @@ class Ref:
         if idx < 0:
             idx = n + idx
         return idx if 0 <= idx < n else None
+
+    def hash_order(self):
+        return [k for slot in sorted(self.chains) for k in self.chains[slot]]
+
+    def hash_peek(self):
+        o = self.hash_order()
+        i = self.cur or 0
+        return o[i] if i < len(o) else None
+
+    def tree_peek(self):
+        ks = sorted(self.d)
+        if self.cur is None:
+            return ks[0] if ks else None
+        later = [k for k in ks if k > self.cur]
+        return later[0] if later else None
+
+    def kid(self, k):
+        if self.typ == 'ltbl' and self.ci:
+            k = k.lower()
+        return int.from_bytes(k, 'big')
+
+    def model_op(self, op, a, rec):
+        """the model-level op line (ocaml/d_alloc.ml) for this op in the current state; called BEFORE apply()"""
+        t = self.typ
+        if op == 'free':
+            return 'free'
+        if op in ('first', 'size', 'setsize'):
+            return 'none'
+        if op == 'clear':
+            return 'vclear' if t == 'vec' else ('none' if t == 'harr' else 'clear')
+        if t == 'tree':
+            if op == 'put':
+                return 'none' if not a[0] else 'tput %d %d %d' % (self.kid(a[0]), len(a[0]), len(a[1]))
+            if op == 'get':
+                return 'tget %d' % self.kid(a[0]) if a[0] in self.d else 'none'
+            if op == 'remove':
+                if a[0] not in self.d:
+                    return 'none'
+                later = [k for k in sorted(self.d) if k > a[0]]
+                return 'tremove %d %s %s' % (self.kid(a[0]), self.kid(later[0]) if later else '-', ','.join(rec.get('ev', [])) or '-')
+            if op in ('min', 'max'):
+                return 'none' if not self.d else 'tmin %d' % self.kid(min(self.d) if op == 'min' else max(self.d))
+            if op == 'next':
+                k = self.tree_peek()
+                return 'none' if k is None else 'tnext %d' % self.kid(k)
+            if op == 'near':
+                if not self.d or not a[0]:
+                    return 'none'
+                ks = sorted(self.d)
+                le = [k for k in ks if k <= a[0]]
+                return 'tnext %d' % self.kid(le[-1] if le else ks[0])
+        if t == 'hash':
+            if op == 'put':
+                return 'hput %d %d %d' % (self.kid(a[0]), len(a[0]) + 1, len(a[1]))
+            if op in ('get', 'remove'):
+                return 'h%s %d' % (op, self.kid(a[0])) if a[0] in self.d else 'none'
+            if op == 'next':
+                k = self.hash_peek()
+                return 'none' if k is None else 'hnext %d' % self.kid(k)
+        if t == 'ltbl':
+            if op == 'put':
+                return 'none' if not a[1] else 'lput %d %d %d %d %d %d' % (self.unique, self.top, self.fwd, self.kid(a[0]), len(a[0]) + 1, len(a[1]))
+            if op == 'get':
+                i = self.lfind(a[0])
+                return 'none' if i is None else 'lget %d' % i
+            if op == 'getmulti':
+                return 'lgetmulti %d %d' % (self.fwd, self.kid(a[0]))
+            if op == 'remove':
+                return 'lremove %d %d' % (self.fwd, self.kid(a[0]))
+            if op == 'next':
+                i = 0 if self.cur is None else self.cur + 1
+                if i >= len(self.l):
+                    return 'none'
+                return 'lnext %d' % (i if self.fwd else len(self.l) - 1 - i)
+        if t in ('list', 'queue', 'stack', 'grow'):
+            n = len(self.l)
+            if op in ('addat', 'push', 'add', 'addstr', 'pushstr', 'pushint'):
+                if op == 'addat':
+                    idx, ds = a[0], len(a[1])
+                elif op == 'pushint':
+                    idx, ds = (-1 if t == 'queue' else 0), 8
+                elif op == 'pushstr':
+                    idx, ds = (-1 if t == 'queue' else 0), len(a[0]) + 1
+                elif op == 'push':
+                    idx, ds = (-1 if t == 'queue' else 0), len(a[0])
+                else:
+                    idx, ds = -1, len(a[0])
+                p = self.norm_add(idx, n)
+                if not ds or (self.max and n >= self.max) or p is None:
+                    return 'none'
+                return 'saddat %d %d %d' % (p, ds, op == 'pushint')
+            if op in ('getat', 'get', 'getstr', 'getint', 'popat', 'pop', 'popstr', 'popint', 'removeat'):
+                idx = a[0] if op in ('getat', 'popat', 'removeat') else 0
+                p = self.norm_get(idx, n)
+                if p is None:
+                    return 'none'
+                if op == 'removeat':
+                    return 'sremoveat %d' % p
+                if op == 'getint':
+                    return 'sgettmp %d' % p
+                if op.startswith('pop'):
+                    return 'spopat %d %d' % (p, op == 'popint')
+                return 'sgetat %d' % p
+            if op == 'toarray':
+                return 'stoarray %d -' % sum(len(x) for x in self.l)
+            if op == 'tostring':
+                fl = ''.join('1' if len(x) - (1 if x.endswith(b'\0') else 0) > 0 else '0' for x in self.l)
+                return 'stoarray %d %s' % (sum(len(x) for x in self.l) + 1, fl or '-')
+            if op == 'next':
+                i = 0 if self.cur is None else self.cur + 1
+                return 'none' if i >= n else 'sgetat %d' % i
+            if op == 'reverse':
+                return 'sreverse'
+        if t == 'vec':
+            n = len(self.l)
+            if op in ('addat', 'addlast', 'addfirst'):
+                idx = a[0] if op == 'addat' else (n if op == 'addlast' else 0)
+                if idx < 0:
+                    idx += n
+                return 'vaddat %d' % idx if 0 <= idx <= n else 'none'
+            if op in ('getat', 'popat', 'removeat', 'setat'):
+                p = self.norm_get(a[0], n)
+                if p is None:
+                    return 'none'
+                return {'getat': 'vgetat', 'popat': 'vpopat %d' % p, 'removeat': 'vremoveat %d' % p, 'setat': 'vsetat'}[op]
+            if op == 'resize':
+                return 'vresize %d' % a[0]
+            if op == 'reverse':
+                return 'vreverse'
+            if op == 'toarray':
+                return 'vtoarray'
+            if op == 'next':
+                i = 0 if self.cur is None else self.cur
+                return 'vgetat' if i < n else 'none'
+        if t == 'harr':
+            if op == 'get':
+                return 'aget %d' % len(self.d[a[0]]) if a[0] in self.d else 'none'
+            if op == 'next':                         # walk order of the static table is C06's subject: sizes are taken from the requests made
+                rq = [int(e.split(':')[1]) for e in rec.get('ev', []) if e[0] in 'ax']
+                return 'none' if not rq else 'anext %d %d' % (rq[0] - 1, rq[1] if len(rq) > 1 else 0)
+            return 'none'
+        return 'none'
 
     def contents(self):
         """canonical contents, comparable with parse_dump()"""
@@ -198,14 +340,22 @@ class Ref:
                 return hx(k) + '=' + hx(self.d[k])
         if t == 'hash':
             if op == 'put':
+                if a[0] not in self.d:
+                    self.chains.setdefault(murmur3_32(a[0]) % self.range, []).insert(0, a[0])
                 self.d[a[0]] = a[1]
                 return 'true'
             if op == 'get':
                 return hx(self.d[a[0]]) if a[0] in self.d else 'NULL'
             if op == 'remove':
+                if a[0] in self.d:
+                    self.chains[murmur3_32(a[0]) % self.range].remove(a[0])
                 return 'true' if self.d.pop(a[0], None) is not None else 'false'
             if op == 'next':
-                return None                             # order = slot order; compared against B and as a set by the caller
+                k = self.hash_peek()
+                if k is None:
+                    return 'false'
+                self.cur = (self.cur or 0) + 1
+                return hx(k) + '=' + hx(self.d[k])
         if t == 'harr':
             if op == 'put':
                 self.d[a[0]] = a[1]
@@ -773,3 +923,121 @@ def inject_variants(h, nreq):
         if nreq > 1 or True:
             v.append(h.with_injection('failfrom', k))
     return v
+
+
+# ------------------------------------------------------------------ ledger correspondence: implementation vs extracted scripts
+def model_input(h, recs):
+    """driver lines for one history (uses a fresh reference replay to know positions / presence / sizes)"""
+    out = []
+    lines = h.lines()
+    ref = None
+    i = 0
+    for l in lines:
+        if l.startswith('fail'):
+            out.append(l)
+            continue
+        d = recs[i] if i < len(recs) else {'abort': 'MISSING'}
+        i += 1
+        w = l.split()
+        op = w[0]
+        if 'abort' in d:
+            break
+        if op == 'new':
+            out.append(l)
+            ref = Ref(h.typ, h.newargs) if d['r'] == 'obj' else None
+            continue
+        if ref is None:
+            out.append('none')
+            continue
+        a = decode_args(h.typ, op, w[1:])
+        out.append(ref.model_op(op, a, d))
+        if not (d['inj'] and d['rep'] == 'fail'):
+            if h.typ == 'harr' and op == 'put':
+                if d['r'] == 'true':
+                    ref.d[a[0]] = a[1]
+                elif parse_dump('harr', d['A'])[1] != len(ref.d):
+                    ref.d.pop(a[0], None)
+            else:
+                ref.apply(op, a)
+    return out
+
+
+MLINE = re.compile(r'(\w+) \| ev=(.*) \| cp=(.*) \| own=(.*) \| out=(\w+) mut=(\d) safe=(\d)$')
+
+
+def dedup(l):
+    r = []
+    for x in l:
+        if not r or r[-1] != x:
+            r.append(x)
+    return r
+
+
+def compare_model(h, recs, mlines, asan=False):
+    """first difference between the implementation's recorded ledger events and the script's prediction: (line index, what, impl, model) or None"""
+    lines = [l for l in h.lines() if not l.startswith('fail')]
+    prevA = None
+    for i, d in enumerate(recs):
+        if 'abort' in d:
+            return None if d['abort'] == 'DEAD' else (i, 'abort', d['abort'], mlines[i] if i < len(mlines) else '')
+        if i >= len(mlines):
+            return (i, 'missing', d['raw'][:200], 'MISSING')
+        ml = mlines[i]
+        op = lines[i].split()[0]
+        if ml.endswith('NOCONT'):
+            if d['r'] != 'NOCONT':
+                return (i, 'container', d['r'], 'NOCONT')
+            continue
+        m = MLINE.match(ml)
+        if not m:
+            return (i, 'model-line', d['raw'][:200], ml)
+        mev = [x for x in m.group(2).split(',') if x]
+        mcp = [x for x in m.group(3).split(',') if x]
+        mown = [int(x) for x in m.group(4).split(',') if x]
+        iev, icp = d['ev'], d['cp']
+        if h.typ in ('tree', 'hash') and op in ('clear', 'free'):
+            iev, mev = sorted(iev), sorted(mev)
+        if h.typ == 'harr':
+            icp, mcp = dedup(icp), dedup(mcp)
+        if iev != mev:
+            return (i, 'events', ','.join(d['ev']), m.group(2))
+        if not asan and icp != mcp:
+            return (i, 'copies', ','.join(d['cp'])[:300], m.group(3)[:300])
+        if d['own'] != mown:
+            return (i, 'owned-blocks', d['own'], mown)
+        if (m.group(5) == 'failed') != (d['inj'] == 1 and d['rep'] == 'fail'):
+            return (i, 'outcome', 'inj=%d rep=%s' % (d['inj'], d['rep']), m.group(5))
+        if m.group(7) != '1':
+            return (i, 'script-illegal-in-ledger', '', ml)
+        if m.group(6) == '0' and m.group(5) != 'nothing' and prevA is not None and d['A'] != prevA and op not in ('new', 'free'):
+            return (i, 'mutated-flag', d['A'][:200], 'script says the container is not modified')
+        prevA = d['A']
+    return None
+
+
+def run_model(ctx, pairs, sizes, timeout=900, nproc=None):
+    """pairs: [(hist, recs)] -> list of model output line lists (same order)"""
+    nproc = nproc or min(NCPU, 8)
+    idx = list(range(len(pairs)))
+    chunks = [idx[i::nproc] for i in range(nproc)]
+    res = [None] * len(pairs)
+
+    def one(ch):
+        if not ch:
+            return
+        inp, counts = [sizes], []
+        for j in ch:
+            ml = model_input(*pairs[j])
+            counts.append(len([x for x in ml if not x.startswith('fail')]))
+            inp += ml
+        rc, o, e = ctx.driver([AREA], inp=('\n'.join(inp) + '\n').encode(), timeout=timeout)
+        out = o.decode('latin1').splitlines()
+        p = 0
+        for j, c in zip(ch, counts):
+            res[j] = out[p:p + c]
+            p += c
+        if rc != 0:
+            ctx.broken.append(('correspondence:driver', 'driver exit %s: %s' % (rc, e.decode('latin1')[-400:])))
+    with ThreadPoolExecutor(nproc) as ex:
+        list(ex.map(one, chunks))
+    return res
